@@ -8,9 +8,16 @@ EXTENDS EngineOps, Json, TLCExt, SequencesExt
 CONSTANTS MaxW,        \* maximal weight of the generated body
           Shard, NShards,
           OutFile,     \* ndjson file to write
-          Family       \* which constructor/leaf family to enumerate
+          Family,      \* which constructor/leaf family to enumerate
+          WithNoSimp,  \* also predict the pull sequence of the unsimplified tree (C15)
+          Light        \* programs only: no meaning, no engine prediction (for checks that need texts)
 
 -----------------------------------------------------------------------------
+LightVectors(p) ==
+    LET d == Max(1, Eff(p).need) IN
+    <<[ast |-> Cat(StreamSrc(d), Cat(Prefix(Family), p)), kind |-> "stream"],
+      [ast |-> Cat(SingleSrc(d), Cat(Prefix(Family), p)), kind |-> "single"]>>
+
 Vectors(p) ==
     LET d == Max(1, Eff(p).need)
         sp == Cat(StreamSrc(d), Cat(Prefix(Family), p))
@@ -19,8 +26,9 @@ Vectors(p) ==
         ro == Run(op)
         es == EngineRun(sp)
         eo == EngineRun(op)
-        ens == EngineRunNoSimp(sp)
-        eno == EngineRunNoSimp(op)
+        none == [out |-> <<>>, m |-> [bad |-> TRUE, hard |-> TRUE]]
+        ens == IF WithNoSimp THEN EngineRunNoSimp(sp) ELSE none
+        eno == IF WithNoSimp THEN EngineRunNoSimp(op) ELSE none
     IN (IF rs.hard THEN <<>>
         ELSE <<[ast |-> sp, den |-> rs.out, lo |-> rs.lo, hi |-> rs.hi, ordered |-> FALSE,
                 kind |-> "stream", eng |-> NormOut(es.out), engok |-> ~(es.m.bad \/ es.m.hard),
@@ -47,13 +55,13 @@ GenVectors ==
         mine == MyShare(all)
         good == SelectSeq(mine, LAMBDA r: BodyOKF(Family, r.p))
         illf == SelectSeq(mine, LAMBDA r: IllFormed(r.p))
-        vecs == FlatMap(LAMBDA r: Vectors(r.p), good)
+        vecs == FlatMap(LAMBDA r: IF Light THEN LightVectors(r.p) ELSE Vectors(r.p), good)
                \o [j \in 1..Len(illf) |-> [ast |-> illf[j].p, kind |-> "illformed"]]
         BuildErr(p) == BuildQueryNoSimp(Cat(Prefix(Family), p)).err
     IN \* the two notions of a closed, well-scoped program agree: Zw!WellFormed on the AST and the
        \* exceptions of bindings::bind / READ in EngineOps!BuildT on the tree
-       /\ \A j \in 1..Len(illf) : BuildErr(illf[j].p) \/ (PrintT(<<"WFMISMATCH-ill", illf[j].p>>) /\ FALSE)
-       /\ \A j \in 1..Len(good) : ~BuildErr(good[j].p) \/ (PrintT(<<"WFMISMATCH-good", good[j].p>>) /\ FALSE)
+       /\ Light \/ \A j \in 1..Len(illf) : BuildErr(illf[j].p) \/ (PrintT(<<"WFMISMATCH-ill", illf[j].p>>) /\ FALSE)
+       /\ Light \/ \A j \in 1..Len(good) : ~BuildErr(good[j].p) \/ (PrintT(<<"WFMISMATCH-good", good[j].p>>) /\ FALSE)
        /\ ndJsonSerialize(OutFile, vecs)
        /\ PrintT(<<"GEN", "total", Cardinality(all), "mine", Len(mine), "legal", Len(good),
                    "illformed", Len(illf), "vectors", Len(vecs)>>)
